@@ -663,7 +663,7 @@ func explore(c *vlib.Ctx, scratch string, idx *int64, via string, nfiles int, ma
 			*idx++
 		}
 		if ok && c.Mine(*idx) {
-			if done++; done%64 == 0 && c.Expired() {
+			if done++; done%8 == 0 && c.Expired() {
 				c.Cap("budget expired during " + what)
 				return false
 			}
